@@ -570,6 +570,15 @@ func (x *Exec) runLoop(spec *LoopSpec, ord int, label string, st *State, cond fu
 			lc := &loopCtx{label: label}
 			f.loops = append(f.loops, lc)
 			defer func() { f.loops = f.loops[:len(f.loops)-1] }()
+			if len(spec.Head) > 0 {
+				dsc := x.loopScope(dst, n, scope)
+				for _, g := range spec.Head {
+					if x.ghosts == nil {
+						x.ghosts = map[string]*Value{}
+					}
+					x.ghosts[g.Label] = x.evalSpecVal(g, dsc, dst)
+				}
+			}
 			c := cond(dst)
 			bst := dst.clone()
 			bst.guard = And(dst.guard, c)
